@@ -84,6 +84,9 @@ func (vc *VC) allPreds() []*predInfo {
 			if vc.root == nil {
 				continue
 			}
+			if vc.onlyPreds != nil && !vc.onlyPreds[predKey(pf)] {
+				continue
+			}
 			func() {
 				defer func() { recover() }()
 				sub := vc.newEnv(vc.eng.typesPkg(pf.PkgPath), nil, nil)
@@ -100,6 +103,7 @@ func (vc *VC) allPreds() []*predInfo {
 
 // framePreds: the heap changed from pre to st exactly at targets ts (precise modifies of a call).
 func (vc *VC) framePreds(pre, st *State, ts []modTarget) {
+	defer vc.withTag('F')()
 	for _, pi := range vc.allPreds() {
 		overlap := false
 		for _, t := range ts {
@@ -152,10 +156,32 @@ func dependsOnlyOn(t *Term, r *Term) bool {
 	return true
 }
 
+// withTouch marks the object written by the following heap updates (usage: defer vc.withTouch(obj)()).
+func (vc *VC) withTouch(idx *Term) func() {
+	saved := vc.touchIdx
+	vc.touchIdx = idx
+	return func() { vc.touchIdx = saved }
+}
+
 // touchFamily: family key was written directly (store, map update, copy, coarse havoc): every abstract function
 // reading it loses its value for all receivers.
 func (vc *VC) touchFamily(st *State, key string) {
 	if vc.suppressTouch || strings.HasPrefix(key, "$") || strings.HasPrefix(key, "P$") {
+		return
+	}
+	if vc.touchIdx != nil {
+		// the write is at a known object: precise frame (receivers whose footprint avoids that object keep their values)
+		relevant := false
+		for _, pi := range vc.allPreds() {
+			if pi.keys[key] {
+				relevant = true
+			}
+		}
+		if relevant {
+			vc.suppressTouch = true
+			vc.framePreds(st, st, []modTarget{{key: key, sort: vc.famSort[key], idx: vc.touchIdx}})
+			vc.suppressTouch = false
+		}
 		return
 	}
 	for _, pi := range vc.allPreds() {
